@@ -207,6 +207,9 @@ def apply_dev(mod, d):
             mod.color = tuple(d["v"])
         elif n == "data":
             mod.data = d["v"]
+        elif n == "scale":
+            # the common module scale: `mod_scale` where the library has it (a controller may be called `scale`)
+            setattr(mod, "mod_scale" if hasattr(mod, "mod_scale") else "scale", d["v"])
         else:
             setattr(mod, COMMON_ATTRS[n][0], d["v"])
     elif k == "flag":
